@@ -177,15 +177,6 @@ def certify(goal, hyps, order=None):
         ok = (goal - acc).is_zero()
         return {"ok": ok, "seconds": time.time() - t0, "cofactor_terms": sum(len(q.t) for q in qp),
                 "why": "" if ok else "certificate failed the independent check"}
-    # Groebner fallback: compute GB, certify each GB element against the hyps by lifting through successive division
-    try:
-        G = sympy.groebner(hs, *gens, order="grevlex", domain="QQ")
-        qs, r = sympy.reduced(g, list(G.exprs), *gens, order="grevlex", domain="QQ")
-        if r == 0:
-            return {"ok": False, "seconds": time.time() - t0, "cofactor_terms": 0,
-                    "why": "in the ideal by Groebner basis, but no checkable cofactors in terms of the hypotheses", "in_ideal": True}
-    except Exception as e:  # noqa
-        why += f"; groebner failed: {e!r}"
     return {"ok": False, "seconds": time.time() - t0, "cofactor_terms": 0, "why": why or "not in ideal"}
 
 
@@ -219,8 +210,6 @@ def certify_ansatz(goal, hyps, rounds=2, cap=6000):
         new = set()
         for i, h in enumerate(hyps):
             for lm in h.t:
-                if lm == ():
-                    continue
                 for m in S:
                     q = _mono_div(m, lm)
                     if q is not None and (i, q) not in cands:
@@ -270,10 +259,113 @@ def certify_ansatz(goal, hyps, rounds=2, cap=6000):
             "why": "" if ok else "rationalised cofactors failed the exact check", "unknowns": len(cands), "equations": len(rows)}
 
 
+def relevant_hyps(goal, hyps):
+    """Distinct hypotheses connected to the goal through shared variables (transitively)."""
+    seen, uniq = set(), []
+    for h in hyps:
+        key = tuple(sorted(h.t.items()))
+        nkey = tuple(sorted((-h).t.items()))
+        if key in seen or nkey in seen or h.is_zero():
+            continue
+        seen.add(key)
+        uniq.append(h)
+    vars_ = set(goal.variables())
+    chosen = []
+    changed = True
+    rest = list(uniq)
+    while changed:
+        changed = False
+        for h in list(rest):
+            hv = set(h.variables())
+            if hv & vars_:
+                chosen.append(h)
+                rest.remove(h)
+                vars_ |= hv
+                changed = True
+    return chosen
+
+
+def _power_rule(h):
+    """If h == c*v^k - p with v a variable that occurs nowhere else in h (k = 1 or 2): return (v, k, p/c... ) as rewrite v^k -> q."""
+    cands = []
+    for mono, coeff in h.t.items():
+        if len(mono) == 1 and mono[0][1] in (1, 2):
+            v, k = mono[0]
+            rest = Poly({m: c for m, c in h.t.items() if m != mono})
+            if v in rest.variables():
+                continue
+            # prefer eliminating derived symbols (function applications, fresh symbols) over plain parameters
+            derived = v.startswith("(") or "!" in v
+            cands.append((0 if derived else 1, -k, v, k, rest.scale(Fraction(-1) / coeff)))
+    if not cands:
+        return None
+    cands.sort(key=lambda c: (c[0], c[1], c[2]))
+    _, _, v, k, q = cands[0]
+    return v, k, q
+
+
+def substitute_power(goal, v, k, q):
+    """Replace v^k by q everywhere in goal (exact)."""
+    out = Poly()
+    cache = {0: Poly.const(1)}
+    for mono, coeff in goal.t.items():
+        d = dict(mono)
+        e = d.pop(v, 0)
+        hi, lo = divmod(e, k)
+        base = {tuple(sorted(list(d.items()) + ([(v, lo)] if lo else []))): coeff}
+        term = Poly(base)
+        if hi:
+            if hi not in cache:
+                pw = Poly.const(1)
+                for _ in range(hi):
+                    pw = pw * q
+                cache[hi] = pw
+            term = term * cache[hi]
+        out = out + term
+    return out
+
+
+def reduce_by_rules(goal, hyps, limit=40):
+    """Normal form of goal under the rewrite rules v^k -> q read off the hypotheses (each rule replaces equals by equals,
+    so normal form 0 proves goal == 0 under the hypotheses; no search, no trusted helper)."""
+    rules = []
+    used = set()
+    for h in hyps:
+        r = _power_rule(h)
+        if r and r[0] not in used:
+            rules.append(r)
+            used.add(r[0])
+    g = goal
+    steps = 0
+    for _ in range(limit):
+        changed = False
+        for v, k, q in rules:
+            if any(dict(m).get(v, 0) >= k for m in g.t):
+                g = substitute_power(g, v, k, q)
+                changed = True
+                steps += 1
+                if len(g.t) > 200000:
+                    return g, steps
+        if not changed or g.is_zero():
+            break
+    return g, steps
+
+
 def prove_in_ideal(goal, hyps):
-    c = certify_ansatz(goal, hyps)
+    hyps = relevant_hyps(goal, hyps)
+    t0 = time.time()
+    g, steps = reduce_by_rules(goal, hyps)
+    if g.is_zero():
+        return {"ok": True, "seconds": round(time.time() - t0, 3), "cofactor_terms": 0, "why": "", "method": f"rewriting to normal form 0 ({steps} substitutions v^k -> q from the hypotheses)"}
+    c = certify_ansatz(goal, hyps, rounds=1)
+    for rounds in (2, 3):
+        if not c["ok"]:
+            c = certify_ansatz(goal, hyps, rounds=rounds, cap=2500)
     if c["ok"]:
         c["method"] = "ansatz+exact-check"
+        return c
+    if len(hyps) > 12:
+        c["method"] = "ansatz"
         return c
     c2 = certify(goal, hyps)
     c2["method"] = "division+exact-check"
@@ -290,3 +382,108 @@ def eval_poly(p, env):
             term *= Fraction(env[n]) ** e
         acc += term
     return acc
+
+
+# ---- rational functions ---------------------------------------------------------------------------------------------
+class RatFun:
+    def __init__(self, num, den=None):
+        self.num = num
+        self.den = den if den is not None else Poly.const(1)
+
+    def __add__(self, o):
+        if self.den.t == o.den.t:
+            return RatFun(self.num + o.num, self.den)
+        return RatFun(self.num * o.den + o.num * self.den, self.den * o.den)
+
+    def __sub__(self, o):
+        return self + RatFun(-o.num, o.den)
+
+    def __mul__(self, o):
+        return RatFun(self.num * o.num, self.den * o.den)
+
+    def __truediv__(self, o):
+        return RatFun(self.num * o.den, self.den * o.num)
+
+
+def z3_to_ratfun(e):
+    if z3.is_int_value(e):
+        return RatFun(Poly.const(e.as_long()))
+    if z3.is_rational_value(e):
+        return RatFun(Poly.const(Fraction(e.numerator_as_long(), e.denominator_as_long())))
+    k = e.decl().kind()
+    ch = e.children()
+    if k == z3.Z3_OP_ADD:
+        r = z3_to_ratfun(ch[0])
+        for c in ch[1:]:
+            r = r + z3_to_ratfun(c)
+        return r
+    if k == z3.Z3_OP_SUB:
+        r = z3_to_ratfun(ch[0])
+        for c in ch[1:]:
+            r = r - z3_to_ratfun(c)
+        return r
+    if k == z3.Z3_OP_UMINUS:
+        x = z3_to_ratfun(ch[0])
+        return RatFun(-x.num, x.den)
+    if k == z3.Z3_OP_MUL:
+        r = z3_to_ratfun(ch[0])
+        for c in ch[1:]:
+            r = r * z3_to_ratfun(c)
+        return r
+    if k == z3.Z3_OP_DIV:
+        return z3_to_ratfun(ch[0]) / z3_to_ratfun(ch[1])
+    if k == z3.Z3_OP_TO_REAL:
+        return z3_to_ratfun(ch[0])
+    if k == z3.Z3_OP_POWER:
+        ex = z3_to_ratfun(ch[1])
+        if ex.num.is_const() and ex.den.is_const():
+            v = ex.num.const_value() / ex.den.const_value()
+            if v.denominator == 1 and 0 <= v <= 8:
+                b = z3_to_ratfun(ch[0])
+                r = RatFun(Poly.const(1))
+                for _ in range(int(v)):
+                    r = r * b
+                return r
+        raise NotPolynomial("power")
+    if k == z3.Z3_OP_UNINTERPRETED:
+        return RatFun(Poly.var(e.decl().name() if not ch else e.sexpr()))
+    raise NotPolynomial(f"operator {e.decl().name()}")
+
+
+def equalities_of(hyps):
+    """Top-level equalities among the hypotheses (descending into And), as (lhs, rhs) z3 pairs."""
+    out = []
+    stack = list(hyps)
+    while stack:
+        h = stack.pop()
+        if not z3.is_expr(h):
+            continue
+        if z3.is_and(h):
+            stack.extend(h.children())
+        elif z3.is_eq(h) and (z3.is_real(h.arg(0)) or z3.is_int(h.arg(0))):
+            out.append((h.arg(0), h.arg(1)))
+    return out
+
+
+def certify_equation(hyps, lhs, rhs):
+    """lhs == rhs as rational functions modulo the equalities among hyps.  Denominators are assumed non-zero (the
+    caller's division-safety obligations establish that separately)."""
+    t0 = time.time()
+    try:
+        g = z3_to_ratfun(lhs) - z3_to_ratfun(rhs)
+        hp = []
+        for l, r in equalities_of(hyps):
+            try:
+                d = z3_to_ratfun(l) - z3_to_ratfun(r)
+            except NotPolynomial:
+                continue
+            if not d.num.is_zero():
+                hp.append(d.num)
+    except NotPolynomial as e:
+        return {"ok": False, "why": f"not rational: {e}", "seconds": time.time() - t0}
+    if len(g.num.t) > 40000:
+        return {"ok": False, "why": "numerator too large", "seconds": time.time() - t0}
+    c = prove_in_ideal(g.num, hp) if not g.num.is_zero() else {"ok": True, "why": "numerator is identically zero", "cofactor_terms": 0, "method": "normal form"}
+    c["seconds"] = round(time.time() - t0, 3)
+    c["numerator_terms"] = len(g.num.t)
+    return c
